@@ -128,9 +128,11 @@ def execute_and_judge(ctx, vh, cases, name="main", keep=None):
     return findings, ex, raw
 
 
-def judge_lines(ctx, name, raw):
+def judge_lines(ctx, name, raw, module="TraceObj"):
+    """Validate ndjson lines (one case per line) with specs/<module>.tla, sharded.
+    Returns (findings [{pred, case, why}], exercise counters summed over the shards)."""
     findings, ex = [], {}
-    results = core.validate_sharded(ctx, name, "TraceObj", "TraceObj.cfg", raw, timeout=3000,
+    results = core.validate_sharded(ctx, name, module, module + ".cfg", raw, timeout=3000,
                                     is_boundary=lambda ln: True)
     base = 0
     for sh, r in results:
@@ -147,7 +149,7 @@ def judge_lines(ctx, name, raw):
                 for pred in v["bad"]:
                     findings.append({"pred": pred, "case": idx, "why": sorted(v.get("why", []))})
         if not got_ex:
-            raise core.Infra("TraceObj shard printed no exercise counters")
+            raise core.Infra("%s shard printed no exercise counters" % module)
         base += len(sh)
     return findings, ex
 
